@@ -19,6 +19,18 @@ func FlowProgram(r R, withDisruptive bool) (*sl.Program, []string) {
 		p.Engine = "DetectionOnly"
 	}
 	var steers []string
+	// a transaction may switch its own engine mode: what allow/deny do follows the mode of the transaction, not
+	// the mode the WAF was configured with
+	if (p.Engine == "DetectionOnly" && Chance(r, 0.6)) || (p.Engine == "On" && Chance(r, 0.12)) {
+		mode := "On"
+		if p.Engine == "On" {
+			mode = "DetectionOnly"
+		}
+		steers = append(steers, "eng")
+		sw := &sl.Rule{ID: 90, Phase: 1 + r.IntN(2), Severity: -1, Disruptive: "pass", Ctl: []string{"ruleEngine=" + mode}}
+		sw.Targets, sw.Op = steer("eng")
+		p.Items = append(p.Items, sl.Item{Rule: sw})
+	}
 	n := 6 + r.IntN(9)
 	markers := []string{"M1", "M2", "M3"}
 	// choose phases in non-decreasing runs? No: configuration order is independent of phase.
